@@ -539,7 +539,9 @@ func (c *Conn) CanOpenStream() bool {
 		return false
 	}
 
-	return atomic.LoadInt32(&c.openStreams) < int32(atomic.LoadUint32(&c.maxStreams))
+	// maxStreams is the server's to choose, up to 2^32-1: compared as int32 the
+	// upper half of that range is negative and no stream could ever be opened.
+	return int64(atomic.LoadInt32(&c.openStreams)) < int64(atomic.LoadUint32(&c.maxStreams))
 }
 
 // Closed indicates whether the connection is closed or not.
